@@ -755,8 +755,14 @@ class ExcelCompiler:
                     address, formula=REF_FORMAT.format(excel_data.address),
                     excel=self.excel)
 
-            self.range_todos.append(str(excel_data.address))
-            new_nodes = build_range(excel_data)
+            if excel_data.address.is_range:
+                self.range_todos.append(str(excel_data.address))
+                new_nodes = build_range(excel_data)
+            elif str(excel_data.address) in self.cell_map:
+                new_nodes = []
+            else:
+                # unbounded range which is bounded to a single cell
+                new_nodes = build_cell(excel_data)
             if ref_cell is not None:
                 # the reference depends on the range it refers to, and like
                 # other ranges its value is calced when the graph is built
@@ -788,7 +794,7 @@ class ExcelCompiler:
                 bounded_addr = str(self.eval(cell_range))
                 bounded_addr_cell = self.cell_map.get(bounded_addr)
                 if bounded_addr_cell.value is None:
-                    self._evaluate_range(bounded_addr)
+                    self._evaluate(bounded_addr)
                 data = bounded_addr_cell.value
 
             elif cell_range.formula is None:
